@@ -803,7 +803,7 @@ func init() {
 	register(&property{
 		Meta: propertyMeta{
 			ID:          "C07",
-			Explanation: "The cache can only return what the uncached path would have returned for the same (method, path): (C07-KEY) store and lookup keys are both method + whole normalised path (canonical form through the wrapper cacheDynamicRoute; two store sites, one per dynamic tier). (C07-VALUE = C02-CACHE) the pair stored is the pair the miss path returns; a hit returns (v, v.params). (C07-COPY) copyWithParams starts from a whole-struct copy and overwrites only regex, matches, params. (C07-ORDER = C01-TIERS) the cache sits after the static table and before dynamic matching and is filled only on dynamic success paths. (C07-NODE) index and list of the cache agree on keys: pushed node carries (k, v), hashMap[k] is that element, every Remove is paired with delete of that element's key, Get returns the value indexed under k. (C07-GUARD) every use of r.cachedRoutes in the request core is dominated by a nil test. (C02-STATIC) no route reaches the static table through another door than registration's variable-free test of its own whole path: a dynamic route promoted there by the caching code would be answered without parameters from its second request on.",
+			Explanation: "The cache can only return what the uncached path would have returned for the same (method, path): (C07-KEY) store and lookup keys are both method + whole normalised path (canonical form through the wrapper cacheDynamicRoute; two store sites, one per dynamic tier). (C07-VALUE = C02-CACHE) the pair stored is the pair the miss path returns; a hit returns (v, v.params). (C07-COPY) copyWithParams starts from a whole-struct copy and overwrites only regex, matches, params. (C07-ORDER = C01-TIERS) the cache sits after the static table and before dynamic matching and is filled only on dynamic success paths. (C07-NODE) index and list of the cache agree on keys: pushed node carries (k, v), hashMap[k] is that element, every Remove is paired with delete of that element's key, Get returns the value indexed under k. (C07-GUARD) every use of r.cachedRoutes in the request core is dominated by a nil test. (C02-STATIC) no route reaches the static table through another door than registration's variable-free test of its own whole path: a dynamic route promoted there by the caching code would be answered without parameters from its second request on. (C07-OWN) every store into Router.cachedRoutes stores nil or a container allocated by that activation — a call, made in the storing function, of a module constructor whose every return is its own allocation, or a literal — never a captured variable, a parameter or a loaded value: two routers cannot share a cache, whose METHOD+path key identifies a route only within one route table.",
 			NotDecided:  []string{"step-by-step equality of twin routers for every request history (history-valued)", "eviction policy (C14)", "handlers mutating Params (excluded by the property's premise)"},
 			Assumptions: []string{"handlers treat Params as read-only; registration is finished before the first request"},
 		},
@@ -812,7 +812,7 @@ func init() {
 	register(&property{
 		Meta: propertyMeta{
 			ID:          "C14",
-			Explanation: "Structural invariants that make the two-structure implementation a bounded LRU: (C14-PAIR) index and list change together (insert: PushFront(&node{k,v}) with hashMap[k] = that element; remove: list.Remove(e) with delete(hashMap, key of e); Get returns the indexed node's value). (C14-ORIENT) one orientation is used consistently: inserts, re-stores and hits touch the front family, the eviction victim is the back; re-storing a key touches and replaces without inserting; Delete touches nothing else. (C14-BOUND) only Set inserts, every insertion reaches the guard Len() > size, which removes exactly one element, the LRU end (by induction Len <= max(size,0) after every Set). (C14-KEY) the router stores each dynamic match under the key lookup uses, and (C01-TIERS) consults the cache before dynamic matching, so an immediate repeat is answered from the cache. (C14-LOCK) recency mutations happen under the exclusive lock. (C14-ORIENT, Has) Has reads the key through Get, or moves the element it found to the recent end itself.",
+			Explanation: "Structural invariants that make the two-structure implementation a bounded LRU: (C14-PAIR) index and list change together (insert: PushFront(&node{k,v}) with hashMap[k] = that element; remove: list.Remove(e) with delete(hashMap, key of e); Get returns the indexed node's value). (C14-ORIENT) one orientation is used consistently: inserts, re-stores and hits touch the front family, the eviction victim is the back; re-storing a key touches and replaces without inserting; Delete touches nothing else. (C14-BOUND) only Set inserts, every insertion reaches the guard Len() > size, which removes exactly one element, the LRU end (by induction Len <= max(size,0) after every Set). (C14-KEY) the router stores each dynamic match under the key lookup uses, and (C01-TIERS) consults the cache before dynamic matching, so an immediate repeat is answered from the cache. (C14-LOCK) recency mutations happen under the exclusive lock. (C14-ORIENT, Has) Has reads the key through Get, or moves the element it found to the recent end itself. (C14-BOUND, capacity) every store to the capacity field stores a parameter of its function unchanged, or the constant 0 (what a negative capacity already means to Len() > size).",
 			NotDecided:  []string{"LRU conformance as a property of arbitrary operation histories (needs the run-time order); Len() values"},
 			Assumptions: []string{"container/list semantics"},
 		},
